@@ -1240,6 +1240,53 @@ pub fn run_ep_ideal(seed: u64, params: &Params, out: &mut ScnOut) {
     let b_c2s = cap(ccfg.max_send_rate).min(cap(scfg_ep.max_receive_rate)) as f64;
     let b_s2c = cap(scfg_ep.max_send_rate).min(cap(ccfg.max_receive_rate)) as f64;
     let (mut rtt_c, mut rtt_s) = (0.0f64, 0.0f64);
+    // a quarter of the sessions have a predecessor: an earlier connection from the same address that
+    // the client closed 6..19 s before; the server still remembers it (20 s) when the new SYNs
+    // arrive, and whatever it has scheduled for the old connection must not touch the new one
+    let mut prng = Rng::new(seed ^ 0x9e7);
+    let pre = !tiny && prng.chance(0.25);
+    let mut t_pre_disc = 0u64;
+    if pre {
+        if let Some(p) = w.connect_client(ccfg.clone(), addr, (10 * MS, 10 * MS), None) {
+            let until = w.now_ns + 2 * SEC;
+            while w.now_ns < until && w.clients[p].state != 1 {
+                if w.step_next().is_none() {
+                    break;
+                }
+            }
+            for _ in 0..3 {
+                w.client_send(p, 200.min(c_pkt), 0, 3);
+            }
+            let until = w.now_ns + 300 * MS;
+            while w.now_ns < until {
+                if w.step_next().is_none() {
+                    break;
+                }
+            }
+            w.client_disconnect(p, true);
+            let until = w.now_ns + 3 * SEC;
+            while w.now_ns < until && !(w.clients[p].state == 2 && w.server.conn_state.get(&addr) == Some(&2)) {
+                if w.step_next().is_none() {
+                    break;
+                }
+            }
+            if !(w.clients[p].state == 2 && w.server.conn_state.get(&addr) == Some(&2)) {
+                // the predecessor did not close cleanly in time: not the scenario meant here
+                w.finish();
+                world_out(out, &mut w, false, 0, None);
+                return;
+            }
+            t_pre_disc = w.now_ns;
+            w.drop_client(p);
+            let until = w.now_ns + prng.range(6000, 19_000) * MS;
+            while w.now_ns < until {
+                if w.step_next().is_none() {
+                    w.now_ns += 10 * MS;
+                }
+            }
+            w.c.inc("ep_ideal_sessions_with_predecessor");
+        }
+    }
     let ci = match w.connect_client(ccfg.clone(), addr, *rng.pick(&cads), None) {
         Some(i) => i,
         None => {
@@ -1249,7 +1296,8 @@ pub fn run_ep_ideal(seed: u64, params: &Params, out: &mut ScnOut) {
         }
     };
     let dud0 = uflow::verif::dud_count();
-    let n_c = *rng.pick(&[0usize, 100, 400, 1500]);
+    let n_c = if pre { *rng.pick(&[100usize, 400, 1500]) } else { *rng.pick(&[0usize, 100, 400, 1500]) };
+    let mut s_was_up = false;
     let n_s = *rng.pick(&[0usize, 100, 400, 1500]);
     let burst_c = *rng.pick(&[1u64, 10, 200]);
     let burst_s = *rng.pick(&[1u64, 10, 200]);
@@ -1279,7 +1327,8 @@ pub fn run_ep_ideal(seed: u64, params: &Params, out: &mut ScnOut) {
         };
         let c_up = w.clients[ci].state == 1;
         let s_up = w.server.conn_state.get(&addr) == Some(&1);
-        if w.clients[ci].state == 2 || w.server.conn_state.get(&addr) == Some(&2) {
+        s_was_up |= s_up;
+        if w.clients[ci].state == 2 || (w.server.conn_state.get(&addr) == Some(&2) && (s_was_up || !pre)) {
             break;
         }
         // C14 at endpoint level: the allowed rate of either sender never exceeds the ceiling that
@@ -1300,7 +1349,9 @@ pub fn run_ep_ideal(seed: u64, params: &Params, out: &mut ScnOut) {
         }
         if c_up && s_up {
             match who {
-                Some(_) if sent_c < n_c => {
+                // (with a predecessor, the second half of the client's packets waits until the
+                // server's 20 s memory of the old connection has run out)
+                Some(_) if sent_c < n_c && !(pre && sent_c >= n_c / 2 && w.now_ns < t_pre_disc + 23 * SEC) => {
                     for _ in 0..rng.range(0, burst_c) {
                         if sent_c < n_c {
                             let l = size(&mut rng, c_pkt);
@@ -1398,9 +1449,11 @@ pub fn run_ep_ideal(seed: u64, params: &Params, out: &mut ScnOut) {
     }
     // C05: each application sees exactly the other's submissions, in order
     let c_sends: Vec<(u64, usize, u8)> = w.clients[ci].events.iter().filter_map(|e| if let Ev::AppSend(h, l, m) = e.ev { Some((h, l, m)) } else { None }).collect();
-    let s_sends: Vec<(u64, usize, u8)> = w.server.events.iter().filter(|(a, _)| *a == addr).filter_map(|(_, e)| if let Ev::AppSend(h, l, m) = e.ev { Some((h, l, m)) } else { None }).collect();
+    // (only the main client object's connection: a predecessor's events lie before its creation)
+    let t_main = w.clients[ci].created_ns;
+    let s_sends: Vec<(u64, usize, u8)> = w.server.events.iter().filter(|(a, e)| *a == addr && e.t_ns >= t_main).filter_map(|(_, e)| if let Ev::AppSend(h, l, m) = e.ev { Some((h, l, m)) } else { None }).collect();
     let c_recv: Vec<(u64, usize)> = w.clients[ci].events.iter().filter_map(|e| if let Ev::Receive(h, l) = e.ev { Some((h, l)) } else { None }).collect();
-    let s_recv: Vec<(u64, usize)> = w.server.events.iter().filter(|(a, _)| *a == addr).filter_map(|(_, e)| if let Ev::Receive(h, l) = e.ev { Some((h, l)) } else { None }).collect();
+    let s_recv: Vec<(u64, usize)> = w.server.events.iter().filter(|(a, e)| *a == addr && e.t_ns >= t_main).filter_map(|(_, e)| if let Ev::Receive(h, l) = e.ev { Some((h, l)) } else { None }).collect();
     for (dir, sends, recv) in [("client->server", &c_sends, &s_recv), ("server->client", &s_sends, &c_recv)] {
         let mut ri = 0;
         let mut missing: Vec<usize> = Vec::new();
